@@ -73,7 +73,6 @@ type RestakeModel struct {
 	Unbonded []bool
 }
 
-
 func NewRestakeModel(nUsers, nVals int, bondDenom string, allowed []string, balances map[string]*big.Int) *RestakeModel {
 	m := &RestakeModel{BondDenom: bondDenom, Allowed: map[string]bool{}, Vaults: map[string]bool{}, Module: map[string]*big.Int{}, Unbonded: make([]bool, nVals)}
 	for _, d := range allowed {
